@@ -139,3 +139,11 @@ package connectconformance
 
 // Every suite stored in a suite map is a real message (checked where parseTestSuites fills the map).
 //@ mapvalues map[string]*conformancev1.TestSuite: v != nil
+
+// The goroutine behind fetchTrace (C16): waits for the trace of the case, always clears the
+// tracer's slot afterwards (so slots do not accumulate), and keeps the trace only for an
+// unexpected failure; it touches the results object only under r.mu.
+//@ func (*testResults).fetchTrace$1
+//@   requires wfResults(r) && r.tracer != nil
+//@   modifies held, map[string]*tracer.traceResult, map[string]*tracer.Trace, testResults.traces
+//@   ensures @cleared !has(r.tracer.traces, testCase)
